@@ -20,13 +20,14 @@ from tools.translate import core
 PROP_ID = "C07"
 SOURCES = [
     "src/ampform/kinematics/angles.py",
+    "src/ampform/kinematics/phasespace.py",
     "src/ampform/kinematics/lorentz.py",
     "src/ampform/kinematics/__init__.py",
     "src/ampform/helicity/naming.py",
     "src/ampform/helicity/decay.py",
     "src/ampform/sympy/math.py",
 ]
-PROP_MODULES = ["Ampverif.Props.C07"]
+PROP_MODULES = ["Ampverif.Props.C07", "Ampverif.Props.C07Dalitz"]
 NS = "C07"
 KNOWN_CLASS = "angle-name collision via opposite-helicity branch"
 PARAMS = ["E0", "x0", "y0", "z0", "E1", "x1", "y1", "z1"]
@@ -69,7 +70,22 @@ def build_definitions():
         core.Definition("phi", PARAMS, tr(Phi(q).doit()), doc="Phi(p0 + p1) unfolded"),
         core.Definition("theta", PARAMS, tr(Theta(q).doit()), doc="Theta(p0 + p1) unfolded"),
     ]
+    # the REAL polar/azimuthal helicity angle of the helicity child 0 of the isobar (01) in the
+    # three-body topology 2 (01): Theta/Phi(BoostZ(beta)·RotY(-Theta)·RotZ(-Phi)·p0), frame p0 + p1
+    from qrules.topology import create_isobar_topologies
+
+    from ampform.kinematics.angles import compute_helicity_angles
+    from ampform.kinematics.lorentz import create_four_momentum_symbols
+    from tools.translate.c07_ext import chain_definitions
+
+    top = corr.relabelled(create_isobar_topologies(3)[0], {0: 2, 1: 0, 2: 1})
+    angles3 = {k.name: v for k, v in compute_helicity_angles(create_four_momentum_symbols(top), top).items()}
+    if "theta_0^01" not in angles3 or "phi_0^01" not in angles3:
+        raise core.Untranslatable(f"three-body topology 2 (01) has no symbol theta_0^01: {sorted(angles3)}")
+    chain_defs, chain_facts = chain_definitions(angles3["theta_0^01"], angles3["phi_0^01"], PARAMS)
+    defs += chain_defs
     facts = {
+        **chain_facts,
         "InvariantMass_is_ComplexSqrt_of_E2_minus_p2": mass.evaluate() == ComplexSqrt(energy**2 - norm**2),
         "ComplexSqrt_definition_has_two_branches": len(ComplexSqrt(sp.Symbol("x", real=True)).get_definition().args) == 2,
     }
@@ -77,6 +93,8 @@ def build_definitions():
         "energy": (energy.doit(), "re"), "normP": (norm.doit(), "re"),
         "invMassRe": (unfolded, "re"), "invMassIm": (unfolded, "im"),
         "phi": (Phi(q).doit(), "re"), "theta": (Theta(q).doit(), "re"),
+        "helTheta": (angles3["theta_0^01"].doit(), "re"), "helPhi": (angles3["phi_0^01"].doit(), "re"),
+        "helCosArg": (sp.cos(angles3["theta_0^01"].doit()), "re"),
     }
     return defs, reals, facts, (p0, p1)
 
@@ -348,6 +366,20 @@ class C07Property:
             chk.broken_correspondence("translator", f"source no longer translatable: {e}")
         except Exception as e:  # noqa: BLE001
             chk.broken_correspondence("translator", "".join(traceback.format_exception_only(type(e), e))[-600:])
+
+        # C07_dalitz composes with builder C19's regenerated formulate_scattering_angle definitions
+        # (Gen/C19.lean, Gen/C19Table.lean): regenerate them from the tree under test as well, so
+        # that the composition is re-checked against the current closed form on THIS run
+        try:
+            import importlib
+
+            importlib.import_module("tools.props.C19").PROP.regenerate()
+            chk.info("regenerated_dependency", "Gen/C19.lean, Gen/C19Table.lean (tools.props.C19.PROP.regenerate)")
+        except core.Untranslatable as e:
+            chk.broken_correspondence("translator", f"formulate_scattering_angle no longer translatable (C19 generator): {e}")
+        except Exception as e:  # noqa: BLE001
+            chk.note("could not regenerate Gen/C19*.lean through tools.props.C19 (" + f"{type(e).__name__}: {e}"[:200]
+                     + "); C07_dalitz is checked against the files on disk")
 
         # ---------------------------------------------------------------- proofs
         res = common.prove(PROP_ID, PROP_MODULES)
@@ -672,6 +704,7 @@ class C07Property:
                 break
         stats["topologies"] = len(tops)
         bad += search.check_dalitz(chk, rng, n_events * 3, cache=cache, stats=stats)
+        stats["guard_probes"] = search.guard_probes(cache)
         return bad
 
 
@@ -699,10 +732,22 @@ MANIFEST = {
         "permuted four-body two-resonance topologies; the unrestricted statement is refuted for the pinned source), C07_partial "
         "(pinned source: no collision among topologies without a node whose two children both decay), C07_norm/"
         "C07_norm_spacelike (the regenerated unfolding of InvariantMass is sqrt(E^2-|p|^2) for time-like sums, i*sqrt(|p|^2-E^2) "
-        "otherwise). Bounded/partial: the correspondence model<->source is checked, not proved, on all isobar topologies with "
-        "2..4 (quick) / 2..5 (thorough) final states and all permutations plus seeded random topologies up to 7 final states; "
-        "C07_dalitz (helicity polar angle = formulate_scattering_angle) and 'the boost/rotation matrices realise the chain' are "
-        "checked numerically by the oracle only (no Lean theorem); the name-collision of the pinned source is a KNOWN FINDING."
+        "otherwise), C07_theta_polar/C07_phi_azimuth/C07_theta_phi_spherical (the regenerated Theta is arccos(p_z/|p|) in [0,pi] "
+        "with |p|cos = p_z, |p|sin = p_T; the regenerated Phi is arg(p_x+i p_y) in (-pi,pi] with p_T cos = p_x, p_T sin = p_y). "
+        "Dalitz link (Props/C07Dalitz.lean, over the REAL kinematic variable theta_0^01 of the topology 2(01) regenerated entry "
+        "by entry from the library's explicit RotationZ/RotationY matrices and BoostZMatrix.evaluate()): "
+        "chain_is_helicity_frame (RotZ(-Phi), RotY(-Theta) turn the subsystem's flight direction onto +z, BoostZ has "
+        "gamma = E/m, gamma*beta = |p|/m), C07_chain_rest_frame (the chain carries the subsystem's own momentum to (m;0,0,0)), "
+        "C07_dalitz_chain (for ANY three four-vectors summing to rest the regenerated acos argument of the polar helicity angle "
+        "is minus the covariant cosine between the decay product and the spectator) and C07_dalitz (composed with builder C19's "
+        "regenerated formulate_scattering_angle: for all six ordered pairs theta_ij is the helicity angle of particle i through "
+        "the library's own chain, and theta_ji = pi - theta_ij for the opposite-helicity child). Guards of the Dalitz theorems "
+        "(time-like moving subsystem, not exactly along z, positive energies) are real singularities of the generated code "
+        "(nan there, recorded as guard_probes). Bounded/partial: the correspondence model<->source is checked, not proved, on "
+        "all isobar topologies with 2..4 (quick) / 2..5 (thorough) final states and all permutations plus seeded random "
+        "topologies up to 7 final states; the Dalitz theorems are stated for one level of the chain and the isobar (01) "
+        "(deeper chains and the other labellings are the same generated function by the descriptor correspondence; "
+        "numerically checked by the oracle); the name-collision of the pinned source is a KNOWN FINDING."
     ),
     "level_note": (
         "Trusted: Lean kernel + Mathlib (axioms propext, Classical.choice, Quot.sound); the strict parser of the real "
@@ -713,7 +758,11 @@ MANIFEST = {
         "qrules Topology objects and create_isobar_topologies, Python set iteration order (passed to the model as the observed "
         "order), sympy lambdify/numpy (cse on and off) in the numeric oracle, which compares with an independent extended-"
         "precision boost-and-rotate implementation on random physical events (massless, near threshold, boosts up to gamma 1e3) "
-        "with condition-aware tolerances. That BoostZMatrix/RotationY/ZMatrix are proper Lorentz transformations is C08."
+        "with condition-aware tolerances. C07_dalitz imports builder C19's theorems (theta_cos_covariant, theta_sum_pi) and "
+        "regenerates Gen/C19*.lean through tools.props.C19 on the same run; the explicit matrices used for the chain are "
+        "RotationY/Z.as_explicit() and the gamma, gamma*beta arguments of BoostZMatrix.evaluate() in the layout of "
+        "as_explicit() (layout facts re-checked each run; that the generated numpy code equals these matrices is C08, and "
+        "the Float twin of helTheta/helPhi/helCosArg is validated against the real lambdified variable each run)."
     ),
 }
 
